@@ -7,6 +7,8 @@ package main
 // ("conflict": all configuration writes last; "memrace": all tile reads last) and enumerated schedules.
 // Oracles: all lookups succeed with exactly the server's lines, each file fetched at most once per client instance,
 // the stored head and every in-memory head never regress and end at the largest head seen, private paths touch nothing.
+// Further scenario families: deep trees under a low tile height (c14Deep*), and clients that were initialised early and
+// later read records another client cached on a grown log (c14LateReaderScenario).
 // Gen: the linearised traces of such runs as `client.pctrace` / `client.trace` lines for validation on the Lean machines.
 
 import (
@@ -19,7 +21,7 @@ import (
 
 func init() {
 	register(&Prop{ID: "C14", Gen: c14Gen, Oracle: c14Oracle,
-		Rule: "scheduled runs: log sizes 2..12 (thorough ..40), tile heights 1..3 (thorough ..8), 1..2 clients (thorough 3) on a shared configuration with shared or separate caches, 2..4 goroutines (thorough 8), lookups with repeats / `/go.mod` versions / upper-case paths / private paths, honest server growing between responses, cold or warm start; schedules: uniform random, round-robin, run-to-completion, configuration-writes-last, tile-reads-last; plus a few deep worlds under a low tile height (511..1500 records, tile height 1, rarely 2, sizes with many one bits, records far from the right edge: more than 16 tiles in one tile request; cold start, stored earlier large head, or warm cache): a sequential honest sweep and scheduled runs of 2..4 goroutines on 1..2 clients over a growing server; non-trivial = at least two goroutines overlap in time; distinct by scenario line"})
+		Rule: "scheduled runs: log sizes 2..12 (thorough ..40), tile heights 1..3 (thorough ..8), 1..2 clients (thorough 3) on a shared configuration with shared or separate caches, 2..4 goroutines (thorough 8), lookups with repeats / `/go.mod` versions / upper-case paths / private paths, honest server growing between responses, cold or warm start; schedules: uniform random, round-robin, run-to-completion, configuration-writes-last, tile-reads-last; plus a few deep worlds under a low tile height (511..1500 records, tile height 1, rarely 2, sizes with many one bits, records far from the right edge: more than 16 tiles in one tile request; cold start, stored earlier large head, or warm cache): a sequential honest sweep and scheduled runs of 2..4 goroutines on 1..2 clients over a growing server; plus early readers on a shared cache (2..3 clients, one or two of them initialised on a small tree, cold / stored head / warmed cache; the log grows; another client fetches and caches records at or beyond the readers' trees, sequentially or as a scheduled batch; the readers then ask for exactly those module@versions, plain or /go.mod — cache hits whose stored head is newer than the reader's — sequentially, as a batch of reader goroutines, or in one batch with further writer lookups, writer-first and adversarial schedules; restart epilogue); non-trivial = at least two goroutines overlap in time; distinct by scenario line"})
 }
 
 // c14Scenario builds one concurrent scenario line.
@@ -474,6 +476,282 @@ func c14DeepTag(g *Gen, out *clOutcome) {
 	}
 }
 
+// ---------------------------------------------------------------------------------------------
+// A reader that was initialised EARLY, on a shared cache that other clients keep filling.
+//
+// Input class added for the clause "any number of goroutines and clients performing lookups all succeed and receive
+// exactly the server's go.sum lines" (and, in consequence, "every head ends at the largest tree seen"): a cache hit
+// whose stored tree head is NEWER than the reading client's own head.  Several clients (several go commands) share the
+// cache and the configuration; a client reads the configuration once, at its first lookup; other clients go on
+// fetching and caching records of a log that has grown since.  When the early client then asks for exactly such a
+// module@version, the record comes from the cache together with a signed head larger than anything the reader has
+// seen, and the record id lies beyond the reader's tree: the reader has to merge the head that is stored WITH the
+// record before it can authenticate the record.
+//
+// Why it was missing: in c14Scenario all clients are created immediately before the one concurrent batch, so a
+// reader is initialised before another client's WriteCache and reads that very file afterwards only under a rare
+// schedule; and every response tree there holds every requested record, with a warm-up head that is almost always
+// beyond the requested ids.  The sequential epilogue asks for a record below every head.  No scenario had the
+// order  reader's first lookup (small tree) — log grows — other client caches records beyond that tree — reader
+// asks for one of them.
+//
+// Shape: C = 2..3 clients on one configuration, cache group 0 shared by the writer and at least one reader (a third
+// client may have its own cache: the contrast case, it fetches from the network); start cold, from a stored head, or
+// from a warmed cache, all at most the readers' first trees; each reader does its first lookup on a tree of size
+// s0 < N; then the writer looks up k records, at least one with id >= every s0, the server growing as it goes
+// (sequentially, each answer from a tree that may hold the record as its LAST one, or as one scheduled batch); then
+// the readers ask for the writer's module@versions (plain or /go.mod: the same cache file) — sequentially, as one
+// scheduled batch of reader goroutines (several cached heads in flight on one reader), or in one batch with further
+// lookups of the writer on the same keys (writer-first, uniform and adversarial schedules).  Everything is honest:
+// every lookup must succeed with the server's lines, the heads must end at the largest head seen.
+func c14LateReaderScenario(r *Rand, wseed uint64) (string, string) {
+	maxN, maxH := 12, 3
+	if thorough {
+		maxN, maxH = 40, 4
+	}
+	N := 4 + r.Intn(maxN-3)
+	h := 1 + r.Intn(maxH)
+	if thorough && r.Intn(6) == 0 {
+		h = 8
+	}
+	C := 2
+	if r.Intn(4) == 0 {
+		C = 3
+	}
+	W := r.Intn(C)
+	var readers []int
+	for c := 0; c < C; c++ {
+		if c != W {
+			readers = append(readers, c)
+		}
+	}
+	if r.Bool() {
+		readers[0], readers[len(readers)-1] = readers[len(readers)-1], readers[0]
+	}
+	key := func(id int) string {
+		k := "A" + itoa(id)
+		if r.Intn(4) == 0 {
+			k += "m"
+		}
+		return k
+	}
+	parts := []string{fmt.Sprintf("client.run w=%d:%d:0:0 h=%d", wseed, N, h)}
+	// the readers' first trees, in the order in which they start (the server never shrinks)
+	s0 := make([]int, len(readers))
+	for i := range s0 {
+		s0[i] = 1 + r.Intn(N-1) // 1 .. N-1
+		if r.Intn(3) == 0 {
+			s0[i] = 1 + r.Intn(2) // a reader that starts on a (nearly) empty log
+		}
+	}
+	sort.Ints(s0)
+	sMin, sMax := s0[0], s0[len(s0)-1]
+	switch r.Intn(3) {
+	case 1:
+		parts = append(parts, fmt.Sprintf("cfg=A@%d", 1+r.Intn(sMin)))
+	case 2:
+		a := 1 + r.Intn(sMin)
+		ids := []string{"*", "-", itoa(r.Intn(a))}[r.Intn(3)]
+		parts = append(parts, fmt.Sprintf("warm=0:A@%d:%s", a, ids))
+	}
+	for c := 0; c < C; c++ {
+		grp := 0
+		if C == 3 && c == readers[1] && r.Intn(3) == 0 {
+			grp = 1 // the contrast case: this reader does not see the writer's cache
+		}
+		parts = append(parts, fmt.Sprintf("new=%d:%d", c, grp))
+	}
+	for i, c := range readers {
+		parts = append(parts, fmt.Sprintf("srv=A@%d", s0[i]), fmt.Sprintf("look=%d:%s", c, key(r.Intn(s0[i]))))
+	}
+	// the writer: k distinct records, the first one beyond every reader's tree
+	k := 1 + r.Intn(4)
+	wids := []int{sMax + r.Intn(N-sMax)}
+	for len(wids) < k {
+		id := r.Intn(N)
+		if r.Bool() {
+			id = sMin + r.Intn(N-sMin) // beyond the earliest reader's tree
+		}
+		dup := false
+		for _, x := range wids {
+			dup = dup || x == id
+		}
+		if dup {
+			break
+		}
+		wids = append(wids, id)
+	}
+	if r.Bool() {
+		i := r.Intn(len(wids))
+		wids[0], wids[i] = wids[i], wids[0]
+	}
+	maxID := 0
+	for _, id := range wids {
+		if id > maxID {
+			maxID = id
+		}
+	}
+	tcur := sMax
+	strats := []string{"rand", "rand", "conflict", "memrace", "rr", "canon", "last"}
+	growStep := func(lo, cnt int) string {
+		var sizes []int
+		for i := 0; i < cnt; i++ {
+			sizes = append(sizes, lo+r.Intn(N-lo+1))
+		}
+		sort.Ints(sizes)
+		ss := make([]string, len(sizes))
+		for i, s := range sizes {
+			ss[i] = itoa(s)
+		}
+		tcur = sizes[len(sizes)-1]
+		return "grow=" + strings.Join(ss, ",")
+	}
+	if r.Intn(3) > 0 {
+		// one after the other; the answering tree holds the record, often as its last one
+		for _, id := range wids {
+			t := tcur
+			if id+1 > t {
+				t = id + 1
+			}
+			if r.Bool() {
+				t += r.Intn(N - t + 1)
+			}
+			tcur = t
+			parts = append(parts, fmt.Sprintf("srv=A@%d", t), fmt.Sprintf("look=%d:%s", W, key(id)))
+		}
+	} else {
+		// one scheduled batch of the writer's goroutines over the growing server
+		lo := tcur
+		if maxID+1 > lo {
+			lo = maxID + 1
+		}
+		var items []string
+		for _, id := range wids {
+			items = append(items, fmt.Sprintf("%d.%s", W, key(id)))
+		}
+		parts = append(parts, growStep(lo, len(wids)),
+			fmt.Sprintf("par=%s:%d:%s", strats[r.Intn(len(strats))], r.Intn(1000000), strings.Join(items, ",")))
+		// a goroutine served by the cache leaves an answer of the growing server unused: from here on the present tree
+		parts = append(parts, fmt.Sprintf("srv=A@%d", tcur))
+	}
+	// the readers: cache hits on the writer's records, first of all one beyond the reader's own tree
+	var beyond []int
+	for _, id := range wids {
+		if id >= sMax {
+			beyond = append(beyond, id)
+		}
+	}
+	targets := func() []int {
+		ts := []int{beyond[r.Intn(len(beyond))]}
+		if r.Intn(4) == 0 {
+			ts[0] = wids[r.Intn(len(wids))]
+		}
+		for n := r.Intn(3); n > 0; n-- {
+			ts = append(ts, wids[r.Intn(len(wids))])
+		}
+		if r.Intn(4) == 0 {
+			ts = append(ts, r.Intn(tcur)) // any record of the present tree: cached or not
+		}
+		return ts
+	}
+	form := []string{"seq", "seq", "par-readers", "mixed"}[r.Intn(4)]
+	switch form {
+	case "seq":
+		for _, c := range readers {
+			for _, id := range targets() {
+				parts = append(parts, fmt.Sprintf("look=%d:%s", c, key(id)))
+			}
+		}
+	case "par-readers":
+		var items []string
+		for _, c := range readers {
+			for _, id := range targets() {
+				items = append(items, fmt.Sprintf("%d.%s", c, key(id)))
+			}
+		}
+		parts = append(parts, fmt.Sprintf("par=%s:%d:%s", strats[r.Intn(len(strats))], r.Intn(1000000), strings.Join(items, ",")))
+	case "mixed":
+		// the writer goes on (new records, the log grows further) while the readers ask for old and new ones
+		var items []string
+		lo := tcur
+		var fresh []int
+		for n := 1 + r.Intn(2); n > 0; n-- {
+			id := r.Intn(N)
+			fresh = append(fresh, id)
+			if id+1 > lo {
+				lo = id + 1
+			}
+			items = append(items, fmt.Sprintf("%d.%s", W, key(id)))
+		}
+		for _, c := range readers {
+			ts := targets()
+			if r.Bool() {
+				ts = append(ts, fresh[r.Intn(len(fresh))])
+			}
+			for _, id := range ts {
+				items = append(items, fmt.Sprintf("%d.%s", c, key(id)))
+			}
+		}
+		// writer first (operations are released in client order): every reader goroutine finds the cache filled
+		st := strats[r.Intn(len(strats))]
+		if r.Bool() {
+			switch W {
+			case 0:
+				st = "canon"
+			case C - 1:
+				st = "last"
+			}
+		}
+		parts = append(parts, growStep(lo, len(items)), fmt.Sprintf("par=%s:%d:%s", st, r.Intn(1000000), strings.Join(items, ",")))
+		parts = append(parts, fmt.Sprintf("srv=A@%d", tcur))
+	}
+	// epilogue: anybody asks for anything in the present tree; or a reader restarts and asks again
+	switch r.Intn(4) {
+	case 0:
+		parts = append(parts, fmt.Sprintf("look=%d:%s", r.Intn(C), key(r.Intn(tcur))))
+	case 1:
+		c := readers[r.Intn(len(readers))]
+		parts = append(parts, fmt.Sprintf("new=%d:0", c), fmt.Sprintf("look=%d:%s", c, key(wids[r.Intn(len(wids))])))
+	}
+	return strings.Join(parts, " "), form
+}
+
+// c14LateReaderTag counts, for the evidence, the runs in which the class was actually reached: a sequential lookup whose
+// record came from the cache with a validly signed head larger than the client's in-memory head at that moment, the
+// record id lying at or beyond that in-memory tree size.
+func c14LateReaderTag(g *Gen, out *clOutcome) {
+	if out == nil {
+		return
+	}
+	hit, beyond := false, false
+	for _, lk := range out.looks {
+		if lk.g != "s" || lk.to < lk.from || lk.to > len(out.env.trace) || lk.memN0 <= 0 {
+			continue
+		}
+		for _, ev := range out.env.trace[lk.from:lk.to] {
+			if ev.C != lk.c || ev.Kind != "rc" || ev.Err != "" || !strings.HasPrefix(ev.File, clName+"/lookup/") {
+				continue
+			}
+			id, _, rest, err := tlog.ParseRecord(ev.Data)
+			if err != nil {
+				continue
+			}
+			if hd := out.w.classifyHead(rest); hd.valid && hd.n > lk.memN0 {
+				hit = true
+				if id >= lk.memN0 {
+					beyond = true
+				}
+			}
+		}
+	}
+	if hit {
+		g.st.OracleTags["late-reader/cache-hit-with-head-newer-than-the-readers"]++
+	}
+	if beyond {
+		g.st.OracleTags["late-reader/cached-record-id-beyond-the-readers-tree"]++
+	}
+}
+
 func c14Oracle(g *Gen, n int) {
 	wseed := g.U64()%1000 + 1
 	for i := 0; i < n; i++ {
@@ -502,6 +780,13 @@ func c14Oracle(g *Gen, n int) {
 		line := c14DeepParScenario(r, wseed+uint64(i%3))
 		strat := line[strings.Index(line, "par=")+4:]
 		c14DeepTag(g, c14Judge(g, line, "deep/sched/"+strat[:strings.IndexByte(strat, ':')]))
+	}
+	// early readers on a shared cache (see c14LateReaderScenario): small worlds (the same ones as above), cheap; after
+	// everything else and from a generator of their own, for the same reason
+	r2 := &Rand{s: wseed*0x9e3779b97f4a7c15 + 0x1a7e}
+	for i := 0; i < n/4+2; i++ {
+		line, form := c14LateReaderScenario(r2, wseed+uint64(i%7))
+		c14LateReaderTag(g, c14Judge(g, line, "late-reader/"+form))
 	}
 }
 
